@@ -80,7 +80,7 @@ PROPS['C15'] = A(level='exploration', engine='enumerate', harnesses=STR_H, budge
     assumptions=TRUST)
 PROPS['C16']['harnesses'] = PROPS['C16']['harnesses'] + STR_H
 
-PROPS['C18'] = A(level='exploration', engine='enumerate', harnesses=[A(src='harness/c18_misc.cpp', san='asan')], budget=A(quick=150, thorough=1500),
+PROPS['C18'] = A(level='exploration', engine='enumerate', harnesses=[A(src='harness/c18_misc.cpp', san='asan', tag='-p%d' % i, flags=['-DC18_PART=%d' % i]) for i in range(5)], budget=A(quick=150, thorough=1500),
     bounds=A(quick='bitset<N> for N in 1..10 (every one of the 2^N values x every single-bit op at every index, whole-set ops, ~, every shift amount 0..N+70 for <<= >>= << >>, every operand pair for &= |= ^= & | ^ == (N<=8; 147 operands for N=9,10), construction from every integer 0..4*2^N-1 and boundary integers) and N in {31,32,33,63,64,65,66,127,128,129,130,191,192,193,253,256} over boundary patterns (single bits, prefix/suffix masks, word boundaries, alternating) incl. depth-2 shift/flip sequences; array<int,N> N in {1..5,17}; mt19937 vs std::mt19937 1500 draws for seeds 0..4095 + boundary seeds; pcg_basic32 vs reference for 138 seeds x 5 sequences incl. 9 bounds; insertion_sort on every array over {0,1,2} and every permutation up to length 7, both comparators',
              thorough='adds N in {11,12,257,319,320}, all operand pairs for N=9,10, seeds 0..65535, sort length 8'),
     rule='cases = every point of the stated finite domains, enumerated exhaustively; distinct by construction; bitset objects sit between ASan-poisoned pads and are built over 0xCD-filled storage so stray writes and uninitialised words are visible',
